@@ -56,6 +56,7 @@ func roleStores(p *Prog, fn *ssa.Function, typ, field, connType string) (map[str
 				}
 				t := p.newTermer()
 				t.at = s.Instr
+				t.resolvePhi = roleResolver(ff, connType, r == "initiator")
 				out[r] = t.Term(v)
 				errs = append(errs, t.errs...)
 			}
@@ -66,6 +67,7 @@ func roleStores(p *Prog, fn *ssa.Function, typ, field, connType string) (map[str
 		}
 		t := p.newTermer()
 		t.at = s.Instr
+		t.resolvePhi = roleResolver(ff, connType, role == "initiator")
 		out[role] = t.Term(s.Val)
 		errs = append(errs, t.errs...)
 	}
@@ -115,12 +117,17 @@ func runC14(c *Ctx) {
 	c.Touch(p.FuncKey(kdf))
 	c.Touch(p.FuncKey(hs))
 	const tC = "transports/obfs2.obfs2Conn"
-	init := `ctr[aes[hsKdf("Initiator obfuscated data",phi(cat($1,$2)|cat($2,$1)))];iv=hsKdf("Initiator obfuscated data",phi(cat($1,$2)|cat($2,$1)))#1]`
-	resp := `ctr[aes[hsKdf("Responder obfuscated data",phi(cat($1,$2)|cat($2,$1)))];iv=hsKdf("Responder obfuscated data",phi(cat($1,$2)|cat($2,$1)))#1]`
+	// INIT_SEED|RESP_SEED: the initiator's own seed ($1) comes first on the initiator, the peer's ($2) first on the responder
+	stream := func(label, seeds string) string {
+		return `ctr[aes[hsKdf("` + label + `",` + seeds + `)];iv=hsKdf("` + label + `",` + seeds + `)#1]`
+	}
+	const iSeeds, rSeeds = "cat($1,$2)", "cat($2,$1)"
+	initI, respI := stream("Initiator obfuscated data", iSeeds), stream("Responder obfuscated data", iSeeds)
+	initR, respR := stream("Initiator obfuscated data", rSeeds), stream("Responder obfuscated data", rSeeds)
 	tx, e1 := roleStores(p, kdf, "crypto/cipher.StreamWriter", "S", tC)
 	rx, e2 := roleStores(p, kdf, "crypto/cipher.StreamReader", "S", tC)
-	checkRoleTable(c, "R2", "transports/obfs2:(*obfs2Conn).kdf#tx-streams", "session streams: the initiator sends with the INIT stream and the responder with the RESP stream; both are AES-CTR keyed by hsKdf(label, INIT_SEED|RESP_SEED) with the seeds ordered by role (own seed first for the initiator) and nothing in front of them", tx, e1, map[string]string{"initiator": init, "responder": resp})
-	checkRoleTable(c, "R2", "transports/obfs2:(*obfs2Conn).kdf#rx-streams", "session streams: each role receives with the stream its peer sends with (mirror image)", rx, e2, map[string]string{"initiator": resp, "responder": init})
+	checkRoleTable(c, "R2", "transports/obfs2:(*obfs2Conn).kdf#tx-streams", "session streams: the initiator sends with the INIT stream and the responder with the RESP stream; both are AES-CTR keyed by hsKdf(label, INIT_SEED|RESP_SEED) with the seeds ordered by role (own seed first for the initiator) and nothing in front of them", tx, e1, map[string]string{"initiator": initI, "responder": respR})
+	checkRoleTable(c, "R2", "transports/obfs2:(*obfs2Conn).kdf#rx-streams", "session streams: each role receives with the stream its peer sends with (mirror image)", rx, e2, map[string]string{"initiator": respI, "responder": initR})
 	// which seed is which: kdf(seed, peerSeed) is called with (own seed, peer seed)
 	ob = c.Obl("R2", "transports/obfs2:(*obfs2Conn).handshake#kdf-arguments", "the session KDF gets (own seed, peer's seed): the own seed is the CSPRNG array that was sent, the peer seed the 16 bytes read first")
 	kc := p.CallsIn(hs, p.fnID(kdf))
@@ -143,40 +150,63 @@ func runC14(c *Ctx) {
 	ob = c.Obl("R3", "transports/obfs2:(*obfs2Conn).handshake#magic-and-padlen", "the handshake succeeds only if the decrypted magic equals MAGIC_VALUE and PADLEN <= MAX_PADDING, and every PADLEN in [0,8192] is accepted")
 	ff := p.Facts(hs)
 	bad := ""
+	// the two header words: BE32 at offset 0 (magic) and at offset 4 (PADLEN) of the 8-byte header
+	var magicV, padV *ssa.Call
+	for _, uc := range p.CallsIn(hs, "(encoding/binary.bigEndian).Uint32") {
+		_, lo, hi, isS := sliceOfLocalConst(uc.Common().Args[1])
+		if !isS || (hi >= 0 && hi-lo < 4) {
+			continue
+		}
+		switch lo {
+		case 0:
+			magicV, _ = uc.(*ssa.Call)
+		case 4:
+			padV, _ = uc.(*ssa.Call)
+		}
+	}
+	if magicV == nil || padV == nil {
+		bad = "the header is not decoded as BE32 magic at offset 0 and BE32 PADLEN at offset 4"
+	}
+	bd := p.NewBounds()
 	for _, r := range ff.SuccessReturns() {
-		okMagic, okPad := false, false
+		if bad != "" {
+			break
+		}
+		r := r
+		okMagic, _ := bd.Prove(hs, r, func(s *scope, pr *proof) []Cons { return eq(s.lin(magicV, pr), linConst(0x2bf5ca7e)) })
+		okPad, _ := bd.Prove(hs, r, func(s *scope, pr *proof) []Cons { return []Cons{leC(s.lin(padV, pr), 8192)} })
+		if !okMagic {
+			bad = "success does not require the magic value to match"
+		} else if !okPad {
+			bad = "success does not require PADLEN <= 8192"
+		}
+		// every PADLEN in [0,8192] is accepted: each condition on PADLEN on the way to success
+		// must follow from 0 <= PADLEN <= 8192
 		for _, f := range ff.NC(r.Block()) {
 			bo, ok := f.Cond.(*ssa.BinOp)
-			if !ok {
+			if !ok || !isIntType(bo.X.Type()) || bad != "" {
+				continue
+			}
+			sl := p.Slice(bo.X, SliceOpt{NoMem: true})
+			sl2 := p.Slice(bo.Y, SliceOpt{NoMem: true})
+			if !sl.Seen[padV] && !sl2.Seen[padV] {
 				continue
 			}
 			op := bo.Op
-			if !f.Pol {
-				op = negOp(op)
+			if f.Pol {
+				op = negOp(op) // hypothesis: the condition fails
 			}
-			k, isK := intConst(bo.Y)
-			uc, _ := callOf(unspill(bo.X))
-			if uc == nil || p.CalleeID(uc.Common()) != "(encoding/binary.bigEndian).Uint32" {
+			if op == token.ILLEGAL {
 				continue
 			}
-			_, lo, hi, isS := sliceOfLocalConst(uc.Common().Args[1])
-			if isK && k == 0x2bf5ca7e && op == token.EQL && isS && lo == 0 && hi == 4 {
-				okMagic = true
+			okImp, _ := bd.RefuteWith(hs, hs.Blocks[0], func(s *scope, pr *proof) {
+				v := s.lin(padV, pr)
+				pr.add(geC(v, 0), leC(v, 8192))
+				s.cmpCons(pr, op, bo.X, bo.Y, "c14:neg")
+			})
+			if !okImp {
+				bad = "PADLEN is additionally constrained by '" + p.FactString(f) + "': the specification's bound is <= 8192 (a conforming peer may draw any value up to exactly 8192)"
 			}
-			if isK && isS && lo == 4 && hi == 8 {
-				// accepted set must be exactly <= 8192
-				if (op == token.LEQ && k == 8192) || (op == token.LSS && k == 8193) {
-					okPad = true
-				} else {
-					bad = fmt.Sprintf("PADLEN is accepted when 'padLen %s %d': the specification's bound is <= 8192 (a conforming peer may draw exactly 8192)", op, k)
-				}
-			}
-		}
-		if !okMagic && bad == "" {
-			bad = "success does not require the magic value to match"
-		}
-		if !okPad && bad == "" {
-			bad = "success does not require PADLEN <= 8192"
 		}
 	}
 	if bad != "" {
@@ -273,6 +303,8 @@ func sliceOfLocalConst(v ssa.Value) (ssa.Value, int64, int64, bool) {
 			return nil, 0, 0, false
 		}
 		hi = k
+	} else if n, ok := constLen(sl.X.Type()); ok {
+		hi = n
 	}
 	return sl.X, lo, hi, true
 }
@@ -395,4 +427,15 @@ func resolveForRole(ff *FuncFacts, v ssa.Value, connType string, initiator bool,
 		return v, false
 	}
 	return resolveForRole(ff, cands[0], connType, initiator, d+1)
+}
+
+// roleResolver: phi resolution under the assumption isInitiator == initiator.
+func roleResolver(ff *FuncFacts, connType string, initiator bool) func(*ssa.Phi) ssa.Value {
+	return func(phi *ssa.Phi) ssa.Value {
+		v, ok := resolveForRole(ff, phi, connType, initiator, 0)
+		if !ok {
+			return nil
+		}
+		return v
+	}
 }
